@@ -37,7 +37,9 @@ PARTIAL = [
     "input by the numerical Schmidt rank of the dense Hamiltonian with generic values",
     "proved around it: bond_eq_cover (the bond created at a cut = |Cu|+|Cv| of the chosen cover, bilinear routing), "
     "cover_ge_rank (a cover of the support of a matrix is at least its rank), bond_ge_schmidt_rank (no exact "
-    "factorisation through r indices represents an operator of Schmidt rank > r); the identification of a TTNO's edge "
+    "factorisation through r indices represents an operator of Schmidt rank > r), single_term_bond_one / "
+    "single_term_ttno_bond_one (a single-term Hamiltonian gives bond 1 on every edge, as vertex count and as tensor "
+    "shape of the from_state_diagram model) and ttno_bonds_eq_vertex_counts; the identification of a TTNO's edge "
     "cut with such a factorisation and the optimality of the elimination + minimum cover (rank reached) are not proved",
     "genericity is sampled (random complex values), not symbolic",
 ]
